@@ -64,6 +64,17 @@ fn candidates(rng: &mut Rng, allow: &[Route]) -> Vec<(Route, &'static str)> {
             c.push((mix, "splice"));
         }
     }
+    // position by position from two different allowed routes of the same length
+    for a in allow {
+        for b in allow {
+            if a.len() == b.len() && a.len() >= 2 && a != b {
+                let mixed: Route = a.iter().zip(b.iter()).enumerate().map(|(i, (x, y))| if i % 2 == 0 { x.clone() } else { y.clone() }).collect();
+                if !allow.contains(&mixed) {
+                    c.push((mixed, "hopwise-splice"));
+                }
+            }
+        }
+    }
     let hops = 1 + rng.below(3) as usize;
     c.push((gen_route(rng, hops), "random"));
     c
@@ -222,7 +233,10 @@ pub fn check_spend(rng: &mut Rng, acc: &mut Acc) -> Vec<String> {
     let newr = gen_route(rng, 2);
     let caller2_admin = rng.chance(1, 2);
     let caller2 = if caller2_admin { admin.clone() } else { trader.clone() };
-    let r2 = w.exec(&caller2, &t, &json!({"update_config": {"trader": null, "allowed_swap_routes": [route_json(&newr)]}}).to_string(), &[]);
+    // (every third time the new allow-list is empty: that switches all swaps off)
+    let clear = rng.chance(1, 3);
+    let new_list = if clear { json!([]) } else { json!([route_json(&newr)]) };
+    let r2 = w.exec(&caller2, &t, &json!({"update_config": {"trader": null, "allowed_swap_routes": new_list}}).to_string(), &[]);
     if r2.ok != caller2_admin {
         out.push(format!("treasury UpdateConfig by {} {}", if caller2_admin { "the admin" } else { "a non-admin" }, if r2.ok { "succeeded" } else { "failed" }));
     }
@@ -231,8 +245,9 @@ pub fn check_spend(rng: &mut Rng, acc: &mut Acc) -> Vec<String> {
             out.push(format!("routes-only UpdateConfig changed the trader / admin to {} / {}", vs(&cfg, "trader"), vs(&cfg, "admin")));
         }
         let n = cfg.get("allowed_swap_routes").and_then(|x| x.as_array()).map(|a| a.len()).unwrap_or(99);
-        if (n == 1) != caller2_admin {
-            out.push(format!("allow-list has {n} routes after UpdateConfig by {}", if caller2_admin { "admin" } else { "non-admin" }));
+        let replaced = if clear { n == 0 } else { n == 1 && cfg.get("allowed_swap_routes").and_then(|x| x.as_array()).and_then(|a| a.first()) == Some(&route_json(&newr)) };
+        if caller2_admin && !replaced {
+            out.push(format!("allow-list has {n} routes after the admin replaced it with {}", if clear { "an empty list".to_string() } else { "one new route".to_string() }));
         }
     }
     acc.seen("C13", &format!("updcfg|{caller2_admin}|{}", r2.ok));
